@@ -65,7 +65,7 @@ def generate(st):
     else:
         decs = sorted(sw.sample(decs, sw.randint(2, len(decs))))
     cfg = {'funcs': funcs, 'mode': 'retry' if retry else 'normal', 'faulty': faulty, 'decs': decs,
-           'n_ops': sw.choice([6, 10, 16, 24, 36]), 'p13': sw.choice([0.0, 0.05, 0.15]) if faulty else 0.0,
+           'n_ops': sw.choice([6, 10, 16, 24, 36] + ([60, 100] if getattr(st, 'deep', False) else [])), 'p13': sw.choice([0.0, 0.05, 0.15]) if faulty else 0.0,
            'containers': sw.random() < 0.5}
     # memo-stress configuration: few decorators around a cache, a small argument alphabet so that keys repeat, f raising
     # often, and every call replayed on the other wrappers of the same function (memo dicts are inherited on re-wrapping)
